@@ -759,12 +759,33 @@ int ftruncate64(int fd, off_t l) {
 }
 int ftruncate(int fd, off_t l) { return ftruncate64(fd, l); }
 
+/* ------------------------------------------------------------------ environment (engine B, world B)
+ * With VSIM_ENVJUNK=1, a getenv() made by a thread that is inside a library call (the harness
+ * marks that with vsim_thread_clock(1)) for a variable that is NOT set answers "1" instead of
+ * NULL. Reference world A leaves it NULL. A library whose result depends on any environment
+ * variable therefore disagrees between the two worlds, whatever the variable is called. */
+static char *(*real_getenv)(const char *);
+static int g_env_junk = -1;
+static __thread int t_clock_sim;
+char *getenv(const char *name) {
+  if (!real_getenv) real_getenv = dlsym(RTLD_NEXT, "getenv");
+  char *r = real_getenv ? real_getenv(name) : NULL;
+  if (g_env_junk < 0) {
+    char *j = real_getenv ? real_getenv("VSIM_ENVJUNK") : NULL;
+    g_env_junk = (j && j[0] == '1') ? 1 : 0;
+  }
+  if (r || !g_env_junk || !t_clock_sim || !name) return r;
+  if (!strncmp(name, "RUST", 4) || !strncmp(name, "MIRI", 4) || !strncmp(name, "LD_", 3) || !strncmp(name, "VSIM", 4) ||
+      !strncmp(name, "MALLOC", 6) || !strncmp(name, "GLIBC", 5))
+    return r;
+  return (char *)"1";
+}
+
 /* ------------------------------------------------------------------ clock & randomness */
 /* In a world process (the CLI under test) every clock read is simulated. In an engine-B process
  * the harness itself needs real time (watchdogs, condition-variable timeouts), so the simulated
  * clock is served only to threads that asked for it - the harness switches it on around each
  * library call and off inside its own scheduler callback. */
-static __thread int t_clock_sim = 0;
 void vsim_thread_clock(int on) { t_clock_sim = on; }
 
 int clock_gettime(clockid_t clk, struct timespec *ts) {
